@@ -84,7 +84,7 @@ CHECKS = {
               "accepted-result round trip are refuted (str, aggregates with pointers/slices, ?^T, i128, nested enum results) and proved "
               "outside those narrow classes. End to end: generated comptime blocks print the comptime copy next to a run-time copy."),
         design_ref="DESIGN.md section 6 C04, section 10.12",
-        note=TB + "What the JIT-compiled body computes is not modelled (run time). Axioms: float facet uses Flocq's classical axioms if any (see evidence); others none.",
+        note=TB + "What the JIT-compiled body computes is not modelled (run time). Axioms: none.",
         technique="Coq proof (encode/decode round trips, refuted/except-known) + end-to-end comptime-vs-runtime programs"),
     "C16": dict(
         category="proof",
